@@ -41,3 +41,41 @@ pub fn apply_alpha(width: u16, height: u16, filter: u8, data: &[u8], buf: &mut [
         }
     }
 }
+
+/// `extended::composite_frame` with its natural arguments
+#[allow(clippy::too_many_arguments)]
+pub fn composite_frame(
+    canvas: &mut [u8],
+    canvas_width: u32,
+    canvas_height: u32,
+    clear_color: Option<[u8; 4]>,
+    frame: &[u8],
+    frame_offset_x: u32,
+    frame_offset_y: u32,
+    frame_width: u32,
+    frame_height: u32,
+    frame_has_alpha: bool,
+    frame_use_alpha_blending: bool,
+    previous_frame_width: u32,
+    previous_frame_height: u32,
+    previous_frame_offset_x: u32,
+    previous_frame_offset_y: u32,
+) {
+    crate::extended::composite_frame(
+        canvas,
+        canvas_width,
+        canvas_height,
+        clear_color,
+        frame,
+        frame_offset_x,
+        frame_offset_y,
+        frame_width,
+        frame_height,
+        frame_has_alpha,
+        frame_use_alpha_blending,
+        previous_frame_width,
+        previous_frame_height,
+        previous_frame_offset_x,
+        previous_frame_offset_y,
+    );
+}
